@@ -116,6 +116,7 @@ def run(chk: Check, ctx: Any) -> None:
         "statement registers it, under that op's offset; (R4) vertices created by the graph passes carry no offset of a real op into a "
         "registration. Not decided: columns of statements inside multi-line strings."
     )
+    chk.rule("C09-R6", "round trip, every stage interpreted: each source-map entry of convert() is keyed by an input offset and points at the first character of the statement printed for that op; recompiling the text puts the op on the same line")
     chk.rule("C09-R1", "who-may-write _output/_line_number; each append of text T is paired with += T.count('\\n'); line writer newline <-> +1; reset consistent")
     chk.rule("C09-R2", "after source_map_add_opcode(x) the next output operation on every path is write_stmnt(<text>) starting a new line "
                        "(or the registration is made for the current line when the statement is appended to it)")
@@ -317,6 +318,9 @@ def run(chk: Check, ctx: Any) -> None:
                            "write handler registers that offset again, so the source map entry of the real op (an if/switch header or operation) "
                            "is overwritten with the line of `break_loop;`/`continue;`", "synthetic vertex does not re-register a real op's offset", node=c)
     chk.floor("C09-R4", "synthetic vertices created by graph passes", n_syn, 2)
+    from .roundtrip import summarise as _rt
+    _rt(chk, ctx, "C09-R6", "C09", getattr(ctx, "tier", "quick") == "thorough")
+
 
 
 def _handlers_skip_synthetic(repo: Any) -> bool:
